@@ -339,3 +339,77 @@ Section ClearFirst.
       + vm_compute. repeat split; reflexivity.
   Qed.
 End ClearFirst.
+
+(** * progress and termination: every fair execution reaches quiescence *)
+Section Term.
+  Variable ds : Type.
+  Variable diag : text -> ds.
+  Variable empty : ds.
+  Notation st := (st ds).
+  Notation step := (step ds diag empty true).
+
+  Definition tw (k : task) : nat := if tk_fired k then 1 else 2.
+  Definition tsum (l : list task) : nat := list_sum (map tw l).
+
+  (** six per queued notification, three for a handler between its sections, two per sleeping task, one per fired task *)
+  Definition mu (s : st) : nat :=
+    6 * List.length (queue s) + (match mid s with Some _ => 3 | None => 0 end) + tsum (tasks s).
+
+  Lemma tsum_app : forall l1 l2, tsum (l1 ++ l2) = tsum l1 + tsum l2.
+  Proof. intros. unfold tsum. rewrite map_app. apply list_sum_app. Qed.
+
+  Lemma tsum_mid : forall l1 k l2, tsum (l1 ++ k :: l2) = tsum l1 + tw k + tsum l2.
+  Proof. intros. unfold tsum. rewrite map_app, list_sum_app. cbn [map]. change (list_sum (tw k :: map tw l2)) with (tw k + list_sum (map tw l2)). lia. Qed.
+
+  Lemma tsum_cancel : forall i l, tsum (cancel_id i l) = tsum l.
+  Proof.
+    intros [i|] l; cbn [cancel_id]; [|reflexivity]. unfold tsum. rewrite map_map. f_equal.
+    apply map_ext. intros k. destruct (Nat.eqb (tk_id k) i); reflexivity.
+  Qed.
+
+  (** every step other than a workspace-diagnostic publish consumes *)
+  Lemma step_decreases : forall s s', step s s' ->
+    mu s' < mu s \/ (queue s' = queue s /\ mid s' = mid s /\ tasks s' = tasks s).
+  Proof.
+    intros s s' Hst.
+    destruct Hst as [s u t q Hq Hmid | s u q Hq Hmid | s u t Hmid | s u Hmid
+                    | s l1 k l2 Ht Hf | s l1 k l2 Ht Hf Hc | s l1 k l2 t Ht Hf Ha | s l1 k l2 Ht Hf Hc | s u t Ha].
+    - left. unfold mu. cbn [queue mid tasks]. rewrite Hq, Hmid. cbn [List.length]. lia.
+    - left. unfold mu, rm_step1. cbn [queue mid tasks]. rewrite Hq, Hmid. cbn [List.length]. lia.
+    - left. unfold mu. cbn [queue mid tasks]. rewrite Hmid.
+      assert (He : tsum (mkTask (next s) u false false :: cancel_id (tokens s u) (tasks s)) = 2 + tsum (tasks s)).
+      { pose proof (tsum_cancel (tokens s u) (tasks s)) as Hc. unfold tsum in *. cbn [map]. change (list_sum (?a :: ?b)) with (a + list_sum b). rewrite Hc. reflexivity. }
+      rewrite He. lia.
+    - left. unfold mu, rm_step2. cbn [queue mid tasks]. rewrite Hmid. lia.
+    - left. unfold mu. cbn [queue mid tasks]. rewrite Ht. rewrite !tsum_mid. unfold tw. cbn [tk_fired]. rewrite Hf. lia.
+    - left. unfold mu. cbn [queue mid tasks]. rewrite Ht. rewrite tsum_mid, tsum_app. unfold tw. rewrite Hf. lia.
+    - left. unfold mu. cbn [queue mid tasks]. rewrite Ht. rewrite tsum_mid, tsum_app. unfold tw. rewrite Hf. lia.
+    - left. unfold mu. cbn [queue mid tasks]. rewrite Ht. rewrite tsum_mid, tsum_app. unfold tw. rewrite Hf. lia.
+    - right. cbn. repeat split; reflexivity.
+  Qed.
+
+  (** before quiescence some handler section or task can move *)
+  Lemma progress : forall s, ~ quiescent ds s -> exists s', step s s' /\ mu s' < mu s.
+  Proof.
+    intros s Hnq.
+    assert (Hex : exists s', step s s' /\ ~ (queue s' = queue s /\ mid s' = mid s /\ tasks s' = tasks s)).
+    { destruct (mid s) as [[u t | u]|] eqn:Hmid.
+      - eexists. split; [eapply e_b_edit; eassumption|]. cbn [queue mid tasks]. intros [_ [H _]]. discriminate.
+      - eexists. split; [eapply e_b_remove; eassumption|]. unfold rm_step2. cbn [queue mid tasks]. intros [_ [H _]]. discriminate.
+      - destruct (queue s) as [|[u t | u] q] eqn:Hq.
+        + destruct (tasks s) as [|k l2] eqn:Ht.
+          * exfalso. apply Hnq. repeat split; assumption.
+          * destruct (tk_fired k) eqn:Hf.
+            -- destruct (an s (tk_uri k)) as [t|] eqn:Ha.
+               ++ eexists. split; [eapply (t_run_pub _ _ _ _ s [] k l2 t); [exact Ht | exact Hf | exact Ha]|].
+                  cbn [queue mid tasks app]. intros [_ [_ H]]. apply (f_equal (@List.length task)) in H. cbn in H. lia.
+               ++ eexists. split; [eapply (t_run_skip _ _ _ _ s [] k l2); [exact Ht | exact Hf | right; exact Ha]|].
+                  cbn [queue mid tasks app]. intros [_ [_ H]]. apply (f_equal (@List.length task)) in H. cbn in H. lia.
+            -- eexists. split; [eapply (t_fire _ _ _ _ s [] k l2); [exact Ht | exact Hf]|].
+               cbn [queue mid tasks app]. intros [_ [_ H]]. inversion H as [Hk]. apply (f_equal tk_fired) in Hk. cbn in Hk. congruence.
+        + eexists. split; [eapply e_a_edit; [eassumption | assumption]|]. cbn [queue mid tasks]. intros [_ [H _]]. discriminate.
+        + eexists. split; [eapply e_a_remove; [eassumption | assumption]|]. unfold rm_step1. cbn [queue mid tasks]. intros [_ [H _]]. discriminate. }
+    destruct Hex as [s' [Hst Hne]]. exists s'. split; [assumption|].
+    destruct (step_decreases s s' Hst) as [H | H]; [assumption | contradiction].
+  Qed.
+End Term.
